@@ -71,6 +71,15 @@ func (o *Obs) emitInitAndWS(s *hx.Session, res *Result, initial bool) {
 				}
 			}
 		}
+		// value blobs the transaction is going to write under an id that is already on disk (an update of an item
+		// whose value sits in the node although the store keeps values in their own segment: same item id)
+		for _, name := range stores {
+			for _, id := range res.Values[name] {
+				if o.Pre.HasBlob(id) {
+					blobs = append(blobs, c.ID(id))
+				}
+			}
+		}
 		if len(blobs) > 0 {
 			s.Op("b "+strings.Join(blobs, ","), "ok")
 		}
